@@ -32,3 +32,30 @@ def classify(prop, finding):
         if f and f(finding):
             return k['id']
     return None
+
+
+def _dsl_lines(text):
+    out = []
+    for l in text.splitlines():
+        p = l.split()
+        if len(p) >= 3 and re.match(r'\d{4}-\d{2}-\d{2}$', p[0]):
+            out.append((p[0], p[1].upper(), p[2].upper()))
+    return out
+
+
+@predicate('D14')
+def _d14(f):
+    """Non-adjacent same-day SELL lines of one security stay separate sales (per-leg gain split differs)."""
+    if f.get('kind') != 'leg_gain_apportionment':
+        return False
+    lines = _dsl_lines(f.get('input', ''))
+    lines.sort(key=lambda x: x[0])      # stable, like the matcher's date sort
+    last = {}
+    for i, (d, op, t) in enumerate(lines):
+        if op != 'SELL':
+            continue
+        j = last.get((d, t))
+        if j is not None and j != i - 1:
+            return True
+        last[(d, t)] = i
+    return False
